@@ -118,15 +118,17 @@ func checkProbe(r *rux.Router, c cfg, method, path string) string {
 			if rec.Code != wantCode {
 				return fmt.Sprintf("ServeHTTP: status %d, want %d: %s", rec.Code, wantCode, ctx)
 			}
-			if got, want := rec.Header().Get("Allow"), strings.Join(res.Allowed, ", "); got != want {
-				return fmt.Sprintf("ServeHTTP: Allow %q, want %q: %s", got, want, ctx)
+			// the header as it went out with the status line (Result() is the snapshot taken at the commit), not the
+			// live map a handler may still write to afterwards
+			if got, want := rec.Result().Header.Get("Allow"), strings.Join(res.Allowed, ", "); got != want {
+				return fmt.Sprintf("ServeHTTP: Allow header sent %q, want %q: %s", got, want, ctx)
 			}
 		}
 	case model.NotFound:
 		if rec.Code != 404 || (c.customNF && body != "NF") {
 			return fmt.Sprintf("ServeHTTP: %d %q, want 404: %s", rec.Code, body, ctx)
 		}
-		if rec.Header().Get("Allow") != "" {
+		if rec.Result().Header.Get("Allow") != "" || rec.Header().Get("Allow") != "" {
 			return fmt.Sprintf("ServeHTTP: 404 with Allow header %q: %s", rec.Header().Get("Allow"), ctx)
 		}
 	}
